@@ -3,6 +3,7 @@ import RedisVerif.Driver.Crc32
 import RedisVerif.Driver.C10
 import RedisVerif.Model.Codec
 import RedisVerif.Driver.Bincode
+import RedisVerif.Driver.Json
 
 /-
   C14 sub-driver (stateful: base segment image, base checkpoint image).
@@ -75,6 +76,9 @@ def showLoad (base : Option String) : LoadRes Bincode.WState → String
 
 def step (s : St) (line : String) : St × String :=
   match Bin.step? (tokens line) with
+  | some o => (s, o)
+  | none =>
+  match Js.step? (tokens line) with
   | some o => (s, o)
   | none =>
   match tokens line with
